@@ -32,6 +32,7 @@ SCENARIOS = {
     "S-BL-split": [[("c0", "CON", "A"), ("c1", "CON", "A")], [("c2", "CON", "A"), ("n3", "NON", "A")]],
     "S-BL-three": [[("c0", "CON", "A"), ("c1", "CON", "A"), ("c2", "CON", "A")], [("c3", "CON", "B")]],
     # the other endpoint's exchange ends first while a message for A is held back behind A's open exchange
+    "S-BL-wrap": [[("c0", "CON", "A"), ("c1", "CON", "A"), ("c2", "CON", "A"), ("c3", "CON", "A")]],
     "S-BL-cross": [[("c0", "CON", "B"), ("c1", "CON", "A"), ("c2", "CON", "A")]],
     # server role: the node's own separate CON response to A competes with its client requests to A
     "S-BL-server": [[("c0", "CON", "A")], "A-requests-slow", [("c1", "CON", "A")]],
@@ -79,7 +80,8 @@ class BacklogScenario(NetScenario):
 
     def build(self, st):
         from ..world import World
-        w = st.world = World()
+        # (S-BL-wrap: the node's message-ID counter is about to wrap, so that held-back messages carry the IDs 0xFFFF, 0 and 1)
+        w = st.world = World(mid0=0xFFFE) if self.name == "S-BL-wrap" else World()
         site = None
         st.resp = None
         if self.name.startswith("S-BL-server"):
